@@ -302,6 +302,12 @@ def main(argv=None):
                 known_hit[f["what"]] = {"n": 0, "sig": sig, "replay": path}
             else:
                 reported[sig] = (path, detail, v["what"])
+        elif v.get("weak"):
+            # candidate from the abstracted encoding only: not a counterexample of the real query
+            n_inconc += 1
+            if len(inconc_samples) < 8:
+                inconc_samples.append("weak candidate not reproduced: " + v["what"][:160])
+            tries[key] = (tries.get(key) or 0) + 1
         else:
             tries[key] = (tries.get(key) or 0) + 1
             unreproduced.append((key, sig, path, detail, v["what"]))
